@@ -1,5 +1,6 @@
-//! C13: colour quantisation — KDTree / ColorPalette::find, OcTree::{insert, prune, prune_until,
-//! build_palette, to_digraph}, Image::quantize.
+//! C13: colour quantisation — KDTree / ColorPalette::{new, find, find_naive, colors, size, get, from_image},
+//! OcTree::{insert, prune, prune_until, build_palette, to_digraph, find} + Clone / Default / Extend / FromIterator,
+//! Image::quantize through every constructor of Image (API table: design/C13.md, props.d/C13.py).
 use crate::util::*;
 use serde_json::{json, Value};
 use std::sync::mpsc;
@@ -168,6 +169,9 @@ fn run_oct(input: &Value) -> (Case, bool) {
     let mut n_prune = 0usize;
     let mut inserted: Vec<Rgb> = vec![];
     let mut pruned = false;
+    let mut clean = false;
+    let mut other_api = false;
+    let mut find_clean: Vec<bool> = vec![];
     for op in &ops {
         let a = op.as_array().cloned().unwrap_or_default();
         let tag = a.first().and_then(|t| t.as_str()).unwrap_or("");
@@ -197,17 +201,67 @@ fn run_oct(input: &Value) -> (Case, bool) {
                     pruned = true;
                 }
             }
-            "b" => coq_ops.push("OPalette".to_string()),
+            "b" => {
+                coq_ops.push("OPalette".to_string());
+                clean = true;
+            }
+            // Extend<RGBA>: the model has no separate operation, it is the inserts
+            "e" | "x" => {
+                if tag == "x" {
+                    // FromIterator<RGBA>: a new tree
+                    coq_ops.push("ONew".to_string());
+                    inserted.clear();
+                    pruned = false;
+                }
+                for c in a[1].as_array().cloned().unwrap_or_default() {
+                    let c = [
+                        c[0].as_u64().unwrap_or(0) as u8,
+                        c[1].as_u64().unwrap_or(0) as u8,
+                        c[2].as_u64().unwrap_or(0) as u8,
+                    ];
+                    coq_ops.push(format!("OIns {}", crgb(&c)));
+                    inserted.push(c);
+                    n_ins += 1;
+                }
+                clean = false;
+                other_api = true;
+            }
+            // Default
+            "n" => {
+                coq_ops.push("ONew".to_string());
+                inserted.clear();
+                pruned = false;
+                clean = false;
+                other_api = true;
+            }
+            // Clone (derived): the history goes on with the copy; identity in the model
+            "c" => other_api = true,
+            // OcTree::find; the index it returns is only meaningful directly after build_palette
+            "f" => {
+                let c = [
+                    a[1].as_u64().unwrap_or(0) as u8,
+                    a[2].as_u64().unwrap_or(0) as u8,
+                    a[3].as_u64().unwrap_or(0) as u8,
+                ];
+                coq_ops.push(format!("{} {}", if clean { "OFindIdx" } else { "OFind" }, crgb(&c)));
+                find_clean.push(clean);
+                other_api = true;
+            }
             _ => coq_ops.push("ODigraph".to_string()),
+        }
+        if matches!(tag, "i" | "p" | "u") {
+            clean = false;
         }
     }
     let ops2 = ops.clone();
+    let find_clean2 = find_clean.clone();
     // Some(Some(obs)) ok, Some(None) panic, None hang
     let r = with_timeout(20, move || {
         catch(move || {
             let mut tree = OcTree::new();
             let mut obs: Vec<String> = vec![];
             let mut obs_json: Vec<Value> = vec![];
+            let mut n_find = 0usize;
             for op in &ops2 {
                 let a = op.as_array().cloned().unwrap_or_default();
                 match a.first().and_then(|t| t.as_str()).unwrap_or("") {
@@ -223,6 +277,57 @@ fn run_oct(input: &Value) -> (Case, bool) {
                         let p: Vec<Rgb> = tree.build_palette().iter().map(|c| c.to_rgb()).collect();
                         obs.push(format!("BPal {}", crgbs(&p)));
                         obs_json.push(Value::Array(p.iter().map(jrgb).collect()));
+                    }
+                    "e" | "x" => {
+                        let cols: Vec<RGBA> = a[1]
+                            .as_array()
+                            .cloned()
+                            .unwrap_or_default()
+                            .iter()
+                            .map(|c| {
+                                RGBA::new(
+                                    c[0].as_u64().unwrap_or(0) as u8,
+                                    c[1].as_u64().unwrap_or(0) as u8,
+                                    c[2].as_u64().unwrap_or(0) as u8,
+                                    255,
+                                )
+                            })
+                            .collect();
+                        if a[0].as_str() == Some("x") {
+                            tree = cols.into_iter().collect::<OcTree>();
+                        } else {
+                            tree.extend(cols);
+                        }
+                    }
+                    "n" => tree = OcTree::default(),
+                    "c" => {
+                        let copy = tree.clone();
+                        tree = copy;
+                    }
+                    "f" => {
+                        let q = RGBA::new(
+                            a[1].as_u64().unwrap_or(0) as u8,
+                            a[2].as_u64().unwrap_or(0) as u8,
+                            a[3].as_u64().unwrap_or(0) as u8,
+                            255,
+                        );
+                        let with_idx = find_clean2.get(n_find).copied().unwrap_or(false);
+                        n_find += 1;
+                        match tree.find(q) {
+                            None => {
+                                obs.push(if with_idx { "BFindIdx None".to_string() } else { "BFind None".to_string() });
+                                obs_json.push(json!(["find", Value::Null]));
+                            }
+                            Some((i, c)) => {
+                                let c = c.to_rgb();
+                                obs.push(if with_idx {
+                                    format!("BFindIdx (Some ({}, {}))", i, crgb(&c))
+                                } else {
+                                    format!("BFind (Some {})", crgb(&c))
+                                });
+                                obs_json.push(json!(["find", i, jrgb(&c)]));
+                            }
+                        }
                     }
                     _ => {
                         let mut buf = Vec::new();
@@ -257,6 +362,7 @@ fn run_oct(input: &Value) -> (Case, bool) {
                 format!("inserts={}", bucket(n_ins)),
                 format!("distinct={}", bucket(d.len())),
                 format!("pruned={}", pruned),
+                format!("find_clone_extend={}", other_api),
                 format!("manual_prunes={}", n_prune.min(3)),
             ],
             nontrivial: pruned,
@@ -312,6 +418,8 @@ fn run_qnt(input: &Value) -> (Case, bool) {
         rows.push(row);
     }
     let pixels: Vec<RGBA> = data.iter().map(|p| RGBA::new(p[0], p[1], p[2], p[3])).collect();
+    let ctor = input["ctor"].as_u64().unwrap_or(0);
+    let repeat = input.get("ctor").map(|c| !c.is_null()).unwrap_or(false) && w * h <= 2000;
     let r = with_timeout(30, move || {
         catch(move || {
             let img = Image::from_parts(pixels.into(), Shape::from(Size::new(h, w)));
@@ -319,6 +427,25 @@ fn run_qnt(input: &Value) -> (Case, bool) {
                 None => img,
                 Some((r0, r1, c0, c1)) => img.crop(r0..r1, c0..c1),
             };
+            // the same picture through another construction path of Image
+            let img = match ctor {
+                1 => img.clone(),
+                2 => Image::new(&img),
+                3 => Image::from(img.to_owned_surf()),
+                _ => img,
+            };
+            // quantize is a pure function of the picture: a second call on the same Image (only when another
+            // construction path was asked for, to keep the run short) must give the same palette and indices
+            if repeat {
+                let a = img.quantize(k, dither, bg_rgba);
+                let b = img.quantize(k, dither, bg_rgba);
+                let same = match (&a, &b) {
+                    (None, None) => true,
+                    (Some((pa, qa)), Some((pb, qb))) => pa.colors() == pb.colors() && qa.data() == qb.data() && qa.shape() == qb.shape(),
+                    _ => false,
+                };
+                assert!(same, "Image::quantize called twice on one image gave two results");
+            }
             img.quantize(k, dither, bg_rgba).map(|(pal, q)| {
                 let pal: Vec<Rgb> = pal.colors().iter().map(|c| c.to_rgb()).collect();
                 let mut idx: Vec<Vec<usize>> = vec![];
@@ -376,6 +503,111 @@ fn run_qnt(input: &Value) -> (Case, bool) {
                 }),
                 format!("bg_alpha={}", match bg { None => "default", Some(b) if b[3] == 255 => "255", Some(b) if b[3] == 0 => "0", Some(_) => "translucent" }),
             ],
+            nontrivial: d.len() >= 2,
+        },
+        hang,
+    )
+}
+
+// ------------------------------------------------------------------ KDN / PAL
+
+/// ColorPalette::new(pal): find_naive for every query, colors(), size(), get(i)
+fn run_kdn(input: &Value) -> Case {
+    let pal: Vec<Rgb> = input["pal"].as_array().map(|a| a.iter().map(vrgb).collect()).unwrap_or_default();
+    let qs: Vec<Rgb> = input["qs"].as_array().map(|a| a.iter().map(vrgb).collect()).unwrap_or_default();
+    let colors: Vec<RGBA> = pal.iter().map(rgba_of).collect();
+    let palette = catch(move || ColorPalette::new(colors)).flatten();
+    let mut impl_coq = vec![];
+    let mut impl_json = vec![];
+    for q in &qs {
+        let r = match &palette {
+            None => None,
+            Some(p) => {
+                let q = rgba_of(q);
+                catch(std::panic::AssertUnwindSafe(|| p.find_naive(q)))
+            }
+        };
+        match r {
+            None => {
+                impl_coq.push("IPanic".to_string());
+                impl_json.push(json!("panic"));
+            }
+            Some((i, c)) => {
+                let c = c.to_rgb();
+                impl_coq.push(format!("IOk ({},{})", i, crgb(&c)));
+                impl_json.push(json!([i, c[0], c[1], c[2]]));
+            }
+        }
+    }
+    let (cols, size): (Vec<Rgb>, usize) = match &palette {
+        None => (vec![], 0),
+        Some(p) => {
+            // colors() and get(i) must be the same list
+            let by_get: Vec<Rgb> = (0..p.size()).map(|i| p.get(i).to_rgb()).collect();
+            let cols: Vec<Rgb> = p.colors().iter().map(|c| c.to_rgb()).collect();
+            (if by_get == cols { cols } else { vec![] }, p.size())
+        }
+    };
+    let mut j = input.clone();
+    j["impl"] = json!({"naive": impl_json, "size": size});
+    Case {
+        coq: format!("KDN {} {} {} {} {}", crgbs(&pal), crgbs(&qs), clist(impl_coq), crgbs(&cols), size),
+        json: j,
+        tags: vec!["kind=kdn".to_string(), format!("pal={}", bucket(pal.len()))],
+        nontrivial: pal.len() >= 2 && !qs.is_empty(),
+    }
+}
+
+/// ColorPalette::from_image on a surface that is not an Image: a sub-view (Surface::view) or a transposed view
+fn run_pal(input: &Value) -> (Case, bool) {
+    let w = input["w"].as_u64().unwrap_or(0) as usize;
+    let h = input["h"].as_u64().unwrap_or(0) as usize;
+    let data: Vec<Rgb> = input["data"].as_array().map(|a| a.iter().map(vrgb).collect()).unwrap_or_default();
+    let k = input["k"].as_u64().unwrap_or(1) as usize;
+    let transposed = input["transpose"].as_bool().unwrap_or(false);
+    let (r0, r1, c0, c1) = input["view"]
+        .as_array()
+        .map(|a| {
+            let v: Vec<usize> = a.iter().map(|x| x.as_u64().unwrap_or(0) as usize).collect();
+            (v[0], v[1], v[2], v[3])
+        })
+        .unwrap_or((0, h, 0, w));
+    // the pixels in the surface's own row-major order, cut / transposed by the harness itself
+    let mut rows: Vec<Vec<Rgb>> = vec![];
+    for r in r0..r1.min(h) {
+        rows.push((c0..c1.min(w)).map(|c| data[r * w + c]).collect());
+    }
+    if transposed {
+        let (vh, vw) = (rows.len(), rows.first().map(|r| r.len()).unwrap_or(0));
+        rows = (0..vw).map(|c| (0..vh).map(|r| rows[r][c]).collect()).collect();
+    }
+    let pixels: Vec<RGBA> = data.iter().map(rgba_of).collect();
+    let r = with_timeout(30, move || {
+        catch(move || {
+            let img = Image::from_parts(pixels.into(), Shape::from(Size::new(h, w)));
+            let bg = RGBA::new(0, 0, 0, 255);
+            let view = img.view(r0..r1, c0..c1);
+            let pal = if transposed { ColorPalette::from_image(view.transpose(), k, bg) } else { ColorPalette::from_image(view, k, bg) };
+            pal.map(|p| p.colors().iter().map(|c| c.to_rgb()).collect::<Vec<Rgb>>())
+        })
+    });
+    let hang = r.is_none();
+    let (ic, ij) = match &r {
+        None => ("IHang".to_string(), json!("hang")),
+        Some(None) => ("IPanic".to_string(), json!("panic")),
+        Some(Some(None)) => ("INone".to_string(), json!("none")),
+        Some(Some(Some(p))) => (format!("(IOk {})", crgbs(p)), Value::Array(p.iter().map(jrgb).collect())),
+    };
+    let mut j = input.clone();
+    j["impl"] = ij;
+    let mut d: Vec<Rgb> = rows.iter().flatten().copied().collect();
+    d.sort();
+    d.dedup();
+    (
+        Case {
+            coq: format!("PAL {} {} {}", clist(rows.iter().map(|r| crgbs(r))), k, ic),
+            json: j,
+            tags: vec!["kind=pal".to_string(), format!("transposed={}", transposed), format!("distinct={}", bucket(d.len()))],
             nontrivial: d.len() >= 2,
         },
         hang,
@@ -581,7 +813,65 @@ fn gen_oct(rng: &mut Rng) -> Value {
             ops.push(json!(["d"]));
         }
     }
+    if rng.chance(1, 3) {
+        ops = oct_other_api(rng, ops, &cols);
+    }
     json!({"kind": "oct", "ops": ops})
+}
+
+/// The same histories through the rest of OcTree's public surface: the leading inserts through
+/// FromIterator / Default + Extend, the history continued on clones, OcTree::find after build_palette (index
+/// observed) and anywhere else (colour only) for inserted colours and near misses.
+fn oct_other_api(rng: &mut Rng, ops: Vec<Value>, cols: &[Rgb]) -> Vec<Value> {
+    let lead = ops.iter().take_while(|o| o[0].as_str() == Some("i")).count();
+    let mut out: Vec<Value> = vec![];
+    let list: Vec<Value> = ops[..lead].iter().map(|o| json!([o[1], o[2], o[3]])).collect();
+    let mut rest = &ops[..];
+    if lead > 0 {
+        match rng.below(3) {
+            0 => {
+                out.push(json!(["i", 1, 2, 3]));
+                out.push(json!(["x", list]));
+                rest = &ops[lead..];
+            }
+            1 => {
+                out.push(json!(["n"]));
+                let cut = rng.below(lead as u64 + 1) as usize;
+                out.push(json!(["e", list[..cut].to_vec()]));
+                out.push(json!(["e", list[cut..].to_vec()]));
+                rest = &ops[lead..];
+            }
+            _ => {}
+        }
+    }
+    let query = |rng: &mut Rng| -> Value {
+        let mut c = if cols.is_empty() { [0, 0, 0] } else { *rng.pick(cols) };
+        if rng.chance(1, 3) {
+            let ch = rng.below(3) as usize;
+            c[ch] ^= 1 << rng.below(8);
+        }
+        json!(["f", c[0], c[1], c[2]])
+    };
+    for o in rest {
+        if rng.chance(1, 12) {
+            out.push(json!(["c"]));
+        }
+        if rng.chance(1, 15) {
+            out.push(query(rng));
+        }
+        out.push(o.clone());
+        if o[0].as_str() == Some("b") {
+            let n = 1 + rng.below(4);
+            for _ in 0..n {
+                out.push(query(rng));
+            }
+            if rng.chance(1, 2) {
+                out.push(json!(["c"]));
+                out.push(query(rng));
+            }
+        }
+    }
+    out
 }
 
 fn gen_qnt(rng: &mut Rng, big: bool) -> Value {
@@ -784,6 +1074,62 @@ fn gen_qnt_huge_k(rng: &mut Rng) -> Value {
     v
 }
 
+fn gen_pal(rng: &mut Rng) -> Value {
+    let k = *rng.pick(&KS);
+    let big = rng.chance(1, 4);
+    let (h, w) = if big {
+        let w = 10 + rng.below(40) as usize;
+        ((200 * k.min(8) as usize + rng.below(400) as usize) / w + 2, w)
+    } else {
+        (1 + rng.below(12) as usize, 1 + rng.below(16) as usize)
+    };
+    let ncols = 1 + rng.below(24) as usize;
+    let cols = gen_colors(rng, ncols);
+    let data: Vec<Value> = (0..h * w).map(|_| jrgb(rng.pick(&cols))).collect();
+    let r0 = rng.below(h as u64) as usize;
+    let r1 = r0 + 1 + rng.below((h - r0) as u64) as usize;
+    let c0 = rng.below(w as u64) as usize;
+    let c1 = c0 + 1 + rng.below((w - c0) as u64) as usize;
+    let view = if rng.chance(1, 2) { json!([r0, r1, c0, c1]) } else { json!([0, h, 0, w]) };
+    json!({"kind": "pal", "w": w, "h": h, "data": data, "k": if big { k.min(8) } else { k }, "view": view, "transpose": rng.chance(1, 2)})
+}
+
+/// image sizes, requested sizes and colour counts aimed at the integer constants written in src/image.rs and
+/// their neighbours: pixel count vs palette size (h*w in {k-1, k, k+1, 100k.., 200k..}), distinct colours
+/// around k and around max(k, 8)
+fn gen_qnt_source_boundary(rng: &mut Rng) -> Value {
+    let bs = source_boundaries(&["src/image.rs"], 300);
+    let k = if bs.is_empty() { 8 } else { (*rng.pick(&bs)).max(1) };
+    let npix = match rng.below(5) {
+        0 => k.saturating_sub(1).max(1),
+        1 => k,
+        2 => k + 1,
+        3 => (199 * k + rng.below(3)).min(3000),      // around the sub-sampling threshold h*w / (100k) = 2
+        _ => (2 * k).max(2),
+    } as usize;
+    // h * w is exactly the aimed pixel count: the width is one of its divisors
+    let npix = npix.max(1);
+    let divs: Vec<usize> = (1..=npix.min(64)).filter(|d| npix % d == 0).collect();
+    let d = *rng.pick(&divs);
+    let (h, w) = if rng.chance(1, 2) { (npix / d, d) } else { (d, npix / d) };
+    let m = match rng.below(4) {
+        0 => k.saturating_sub(1).max(1),
+        1 => k,
+        2 => k + 1,
+        _ => k.max(8),
+    }
+    .min((h * w) as u64) as usize;
+    let cols = gen_distinct(rng, m.max(1));
+    let mut px: Vec<Rgb> = (0..h * w).map(|i| if i < cols.len() { cols[i] } else { cols[i % cols.len()] }).collect();
+    for i in (1..px.len()).rev() {
+        let j = rng.below(i as u64 + 1) as usize;
+        px.swap(i, j);
+    }
+    let data: Vec<Value> = px.iter().map(|c| json!([c[0], c[1], c[2], 255])).collect();
+    json!({"kind": "qnt", "w": w, "h": h, "data": data, "crop": Value::Null, "k": k, "dither": rng.chance(1, 2), "bg": Value::Null,
+           "ctor": rng.below(4)})
+}
+
 pub fn generate(rng: &mut Rng, n: usize, tier: &str) -> Vec<Value> {
     let thorough = tier == "thorough";
     let mut v = vec![];
@@ -794,9 +1140,27 @@ pub fn generate(rng: &mut Rng, n: usize, tier: &str) -> Vec<Value> {
     }
     for i in 0..n {
         let x = match i % 10 {
-            0 | 1 | 2 => gen_kd(rng, thorough),
+            0 | 1 => gen_kd(rng, thorough),
+            2 => {
+                // the same palettes through find_naive / colors / size / get
+                let mut v = gen_kd(rng, thorough);
+                if i % 20 == 2 {
+                    v["kind"] = json!("kdn");
+                }
+                v
+            }
             3 | 4 | 5 => gen_oct(rng),
-            6 => gen_qnt(rng, false),
+            6 => {
+                if i % 20 == 6 {
+                    gen_pal(rng)
+                } else if i % 20 == 16 {
+                    gen_qnt_source_boundary(rng)
+                } else {
+                    let mut v = gen_qnt(rng, false);
+                    v["ctor"] = json!(rng.below(4));
+                    v
+                }
+            }
             7 => {
                 if i % 30 == 7 {
                     gen_qnt_huge_k(rng)
@@ -821,6 +1185,11 @@ pub fn generate(rng: &mut Rng, n: usize, tier: &str) -> Vec<Value> {
                 }
             }
         };
+        let mut x = x;
+        // every quantize case may reach the picture through another construction path
+        if x["kind"].as_str() == Some("qnt") && x.get("ctor").is_none() && rng.below(2) == 0 {
+            x["ctor"] = json!(rng.below(4));
+        }
         v.push(x);
     }
     v
@@ -831,6 +1200,8 @@ pub fn batch(inputs: &[Value]) -> Batch {
     for input in inputs {
         let (case, hang) = match input["kind"].as_str().unwrap_or("") {
             "kd" => (run_kd(input), false),
+            "kdn" => (run_kdn(input), false),
+            "pal" => run_pal(input),
             "rnd" => (run_rnd(input), false),
             "acc" | "accumulator-overflow" => run_acc(input),
             "oct" => run_oct(input),
